@@ -63,6 +63,8 @@ def run_case(rec, k):
             w = 2
         elif rk == "float":
             w = 0.5
+        elif rk == "npnum":
+            w = np.float32(0.5) if (k + c["nl"]) % 2 else np.int64(2)
         elif rk == "nd1":
             w = np.array([float(x) for x in RHS_VALS[k % 3]])
         else:
@@ -94,7 +96,7 @@ def run_case(rec, k):
                 return "mismatch", f"component {'xyz'[i]} differs from the Array operation on that component: {d}"
             if sparse_of_pint(rc.unit) != [list(x) for x in o["unit"]]:
                 return "mismatch", f"component {'xyz'[i]} unit: spec {o['unit']} != impl {sparse_of_pint(rc.unit)}"
-            rv = wvals[i] if rk == "vec" else ([F(2)] * 2 if rk == "int" else [F(1, 2)] * 2 if rk == "float" else list(RHS_VALS[k % 3]))
+            rv = wvals[i] if rk == "vec" else ([F(2)] * 2 if rk == "int" else [F(1, 2)] * 2 if rk == "float" else [F(w.item()).limit_denominator(4)] * 2 if rk == "npnum" else list(RHS_VALS[k % 3]))
             tol = 64 * EPS["f8"] + (unit_tol(lu, ru) if o.get("converted") else 0)
             for j, (l, r) in enumerate(zip(vvals[i], rv)):
                 e = exact_bin(c["op"], l, r * conv)
@@ -159,6 +161,84 @@ def run_case(rec, k):
             d = same_array(rc, wc)
             if d:
                 return "mismatch", f"{op}: component {'xyz'[i]} differs from the Array operation on that component: {d}"
+        return "match", None
+    if c["fam"] == "vnp2":
+        ru = names["r"]
+        v, vvals = mkvec(c["nl"], lu, COMP_VALS, k)
+        w, wvals = mkvec(c["nr"], ru, RHS_VALS, k)
+        f = c["op"]
+        call = (lambda: np.concatenate([v, w])) if f == "concatenate" else (lambda: getattr(np, f)(v, w))
+        try:
+            res = call()
+        except Exception as e:
+            if o["raises"]:
+                return "match", None
+            return "mismatch", f"np.{f} of two {c['nl']}-component Vectors raised {type(e).__name__}: {e}"
+        if o["raises"]:
+            return "mismatch", f"np.{f} of a {c['nl']}- and a {c['nr']}-component Vector must be rejected, returned {res!r}"
+        if not isinstance(res, V) or res.nvec != c["nl"]:
+            return "mismatch", f"np.{f}: result is not a {c['nl']}-component Vector: {res!r}"
+        for i, (rc, a, b) in enumerate(zip(comps_of(res), comps_of(v), comps_of(w))):
+            want = np.concatenate([a, b]) if f == "concatenate" else getattr(np, f)(a, b)
+            d = same_array(rc, want)
+            if d:
+                return "mismatch", f"np.{f}: component {'xyz'[i]} differs from the Array operation on that component: {d}"
+        return "match", None
+    if c["fam"] == "vmix":
+        # shapes (0-d with n-d, both orders) and dtypes (integer and float components): exact small integers
+        def mk(vals, shp, dts, unit):
+            comps = []
+            for i, col in enumerate(vals):
+                dt = np.int64 if dts[i % len(dts)] == "i" else np.float64
+                comps.append(np.array(col if shp == "n" else col[0], dtype=dt))
+            return V(*comps, unit=unit)
+        av = [[2, -1, 3], [1, 2, -2], [-2, 1, 1]]
+        bv = [[1, 2, -1], [-2, 0, 3], [1, -1, 2]]
+        sh, dt = c["sh"], c["dt"]
+        a = mk(av, sh[0], {"f": "f", "i": "i"}[dt[0]] + "f" if dt[0] == "i" else "f", "m")       # 'i': x integer, y float, z integer
+        b = mk(bv, sh[1], {"f": "f", "i": "i"}[dt[1]] + "f" if dt[1] == "i" else "f", "cm")
+        n = 3 if "n" in sh else 1
+        col = lambda vals, shp, j: [vals[i][j if shp == "n" else 0] for i in range(3)]
+        try:
+            if c["op"] == "norm":
+                r = a.norm
+                got = np.atleast_1d(r.values).astype(float).tolist()
+                na = 3 if sh[0] == "n" else 1
+                want = [float(sum(x * x for x in col(av, sh[0], j))) ** 0.5 for j in range(na)]
+                if sparse_of_pint(r.unit) != SPARSE["m"] or len(got) != na or any(abs(g - w_) > 1e-14 * w_ for g, w_ in zip(got, want)):
+                    return "mismatch", f"norm of a Vector with components {[str(cc.dtype) for cc in comps_of(a)]}: {got} [{r.unit}], expected {want} [m]"
+                return "match", None
+            if c["op"] == "dot":
+                r1, r2 = a.dot(b), b.dot(a)
+                want = [float(sum(x * y for x, y in zip(col(av, sh[0], j), col(bv, sh[1], j)))) * 0.01 for j in range(n)]
+                for r in (r1, r2):
+                    fac = float((1.0 * r.unit).to("m**2").magnitude)
+                    got = (np.atleast_1d(r.values).astype(float) * fac).tolist()
+                    if len(got) != n or any(abs(g - w_) > 1e-13 * max(abs(w_), 0.01) for g, w_ in zip(got, want)):
+                        return "mismatch", f"dot (shapes {sh}, dtypes {dt}): {got} m**2, expected {want} (a.b = b.a)"
+                return "match", None
+            r1, r2 = a.cross(b), b.cross(a)
+            for r, sgn in ((r1, 1.0), (r2, -1.0)):
+                fac = float((1.0 * r.unit).to("m**2").magnitude)
+                for j in range(n):
+                    x, y = col(av, sh[0], j), col(bv, sh[1], j)
+                    want = [x[1] * y[2] - x[2] * y[1], x[2] * y[0] - x[0] * y[2], x[0] * y[1] - x[1] * y[0]]
+                    got = [float(np.atleast_1d(cc.values)[j]) * fac * sgn for cc in comps_of(r)]
+                    if any(abs(g - w_ * 0.01) > 1e-13 * max(abs(w_ * 0.01), 0.01) for g, w_ in zip(got, want)):
+                        return "mismatch", f"cross (shapes {sh}, dtypes {dt}) row {j}: {got} m**2, expected {[w_ * 0.01 for w_ in want]} (a x b = -(b x a))"
+            return "match", None
+        except Exception as e:
+            return "mismatch", f"{c['op']} with shapes {sh} and component dtypes {dt} raised {type(e).__name__}: {e}"
+    if c["fam"] == "vprod" and o.get("raises"):
+        n1, n2 = c["nl"], c["nr"]
+        a = V(*[np.array([1.0, 2.0]) for _ in range(n1)], unit="m")
+        b = V(*[np.array([3.0, 4.0]) for _ in range(n2)], unit="m")
+        for x, y in ((a, b), (b, a)):
+            try:
+                r = x.dot(y)
+            except Exception:
+                continue
+            return "mismatch", f"dot of a {x.nvec}- and a {y.nvec}-component Vector must be rejected, returned {r!r}"
         return "match", None
     if c["fam"] == "vprod":
         ru = names["r"]
@@ -256,7 +336,7 @@ def run_c09(rep, tier, seed):
                 if st == "error":
                     errors.append((c, d))
                     continue
-                rep.case(klass=(c["fam"], c["op"], c["nl"], c.get("nr", 0), c.get("rk", ""), c["lu"], c.get("ru", 0)))
+                rep.case(klass=(c["fam"], c["op"], c["nl"], c.get("nr", 0), c.get("rk", ""), c["lu"], c.get("ru", 0), c.get("sh", ""), c.get("dt", "")))
                 if st == "match":
                     rep.validated()
                     rep.sample({"case": c, "units": recs[i]["names"], "verdict": "every component equals the Array operation and the exact value"}, limit=3)
